@@ -42,6 +42,26 @@ Theorem C18_dedent_indent : forall s p,
   dedent (indent s p) = dedent s.
 Proof. exact dedent_indent_strong. Qed.
 
+(* the clause 'preserves the number of lines and the presence or absence of a final newline' (audit): read literally it is false -- dedent "a\n " = "a\n", AuditFacts.dedent_final_newline_not_preserved: a whitespace-only last line without a newline becomes the empty string -- what holds, for every string, is that the line breaks are preserved: the same number of LF, and piece by piece (split at every LF) a whitespace-only piece becomes empty and any other piece loses exactly the margin (and the CR that str::lines strips before an LF) *)
+From TW Require Import AuditFacts.
+Theorem C18_line_breaks_preserved :
+  forall s : Chars.str,
+         List.count_occ BinNat.N.eq_dec (Indent.dedent s) Chars.LF = List.count_occ BinNat.N.eq_dec s Chars.LF.
+Proof. exact (@dedent_count_lf). Qed.
+
+Theorem C18_piece_by_piece :
+  forall (s : Chars.str) (k : nat),
+         (k < length (Chars.split_lf s))%nat ->
+         let mg := IndentFacts.margin (Chars.lines s) in
+         let p := List.nth k (Chars.split_lf s) nil in
+         let line := if PeanoNat.Nat.ltb (S k) (length (Chars.split_lf s)) then Chars.strip_cr p else p in
+         let p' := List.nth k (Chars.split_lf (Indent.dedent s)) nil in
+         Indent.has_nonws line = Indent.has_nonws p /\
+         (Indent.has_nonws p = false -> p' = nil) /\ (Indent.has_nonws p = true -> line = (mg ++ p')%list).
+Proof. exact (@dedent_piece). Qed.
+
+Print Assumptions C18_line_breaks_preserved.
+Print Assumptions C18_piece_by_piece.
 Print Assumptions C18_margin.
 Print Assumptions C18_margin_is_longest_common_whitespace_prefix.
 Print Assumptions C18_spec.
